@@ -41,7 +41,14 @@ def run_lp_check(pid, tier, seed, runs, owns=(), level='model_checking', rule=''
             res = engine.tlc_replay(rep, pool, r.get('module', 'MC_Solver'), r.get('worker', worker), consts=r['consts'],
                                     invariants=r['invariants'], label=r['label'], on_result=on_result,
                                     export_filter=flt, timeout=r.get('timeout', 3000),
-                                    constraint=r.get('constraint'), **kw)
+                                    constraint=r.get('constraint'),
+                                    coverage=(r.get('coverage') if r.get('coverage') is not None else (not sim and not rep.cov.get('tlc_action_coverage'))), **kw)
+            if res.get('coverage'):
+                rep.cov.setdefault('tlc_action_coverage', {})[r['label']] = {a: c['distinct'] for a, c in res['coverage'].items()}
+                if r['consts'].get('ExportMode', 'run') == 'run' and r.get('module', 'MC_Solver') == 'MC_Solver':
+                    cv = res['coverage']
+                    if not (cv.get('DoSolveStep', {}).get('distinct') or cv.get('DoBFRun', {}).get('distinct')):
+                        common.machinery_exit(pid, 'vacuous run %s: the solver actions were never taken (%s)' % (r['label'], cv))
             rep.notes.append('%s: %s, %d behaviours exported, %d states, %.0fs' % (
                 r['label'], 'simulate' if sim else 'exhaustive BFS', res['exports'], res['distinct'], res['wall_s']))
         if post:
